@@ -61,7 +61,7 @@ class Engine(ExprEval, NumpyModel, NumpyFuncs):
         self.spec_consts = dict(spec_consts or {})
         self.spec_funcs = dict(spec_funcs or {})
         self.spec_names = set(self.spec_funcs) | {"forall", "exists", "implies", "iff", "ite", "old", "shape", "rowsum",
-                                                  "is_none", "typeis", "lam", "isnan_", "fresh", "using", "have", "payload", "optval", "isint_", "to_int", "gather_pos", "gather_src", "sort_inv", "sort_perm"}
+                                                  "is_none", "typeis", "lam", "isnan_", "fresh", "using", "have", "payload", "kindis", "optval", "isint_", "to_int", "gather_pos", "gather_src", "sort_inv", "sort_perm"}
         self.externals = dict(externals or {})
         self.obligations: list[Obligation] = []
         self.assumptions: set[str] = set()
@@ -590,6 +590,8 @@ class Engine(ExprEval, NumpyModel, NumpyFuncs):
             if isinstance(v, OptV):
                 return v.is_none
             return v is NONE
+        if name == "kindis":
+            return isinstance(args[0], Arr) and args[0].kind == args[1]
         if name == "payload":
             v = args[0]
             if isinstance(v, Opaque):
@@ -899,7 +901,7 @@ class Engine(ExprEval, NumpyModel, NumpyFuncs):
             # constructs that are definite python errors on this path are modelled as the exception they raise
             msg = str(e)
             for exc in ("TypeError", "AttributeError"):
-                if f"({exc} in python)" in msg and not isinstance(stmt, (ast.For, ast.While, ast.If)):
+                if f"({exc} in python)" in msg and not isinstance(stmt, (ast.For, ast.While)):
                     return [(st, ("raise", exc, stmt))]
             raise
 
@@ -1719,7 +1721,14 @@ class Engine(ExprEval, NumpyModel, NumpyFuncs):
             for u in c.post_uses:
                 self.eval(s, parse_expr(u))
             for name, e in c.ensures.items():
-                for h, g in self.sequents(s, parse_expr(e)):
+                try:
+                    seqs = self.sequents(s, parse_expr(e))
+                except (Unsupported, EngineError) as ex:
+                    # the postcondition mentions state that does not exist on this path (e.g. a fitted attribute never assigned)
+                    self.oblige(s, False, "post", name, None)
+                    self.note_assumption(f"post[{name}] not evaluable on a path: {str(ex)[:120]}")
+                    continue
+                for h, g in seqs:
                     self.oblige(s, g, "post", name, None, extra_hyps=h)
             for exc, cond in c.raises.items():
                 old = State()
